@@ -161,7 +161,7 @@ class Revision:
     def __init__(self, objects, form="table", objstm=(), free=(), eol=b"\n", root=None, info=None,
                  trailer_extra=None, gens=None, xref_w=(1, 4, 2), split_index=False, objstm_id=None, xref_id=None,
                  pad_before=b"", omit_index=False, trailer_style=0, xref_pack="flate", objstm_pack="flate",
-                 hybrid_free=False, drop_info=False):
+                 hybrid_free=False, drop_info=False, index_desc=False):
         self.objects = dict(objects)          # objid -> value
         self.form = form                      # 'table' | 'stream' | 'hybrid'
         self.objstm = list(objstm)            # objids stored in this revision's object stream (not for 'table')
@@ -179,6 +179,7 @@ class Revision:
         self.trailer_style = trailer_style    # table: 0 `trailer` EOL dict; 1 `trailer <<...>>` on one line; 2 `trailer <<` EOL entries EOL `>>`
         self.xref_pack = xref_pack            # xref stream payload: 'flate' | 'png' (Flate + /Predictor 12, as most writers do) | 'none'
         self.objstm_pack = objstm_pack        # object stream payload: 'flate' | 'none' | 'hex' (ASCIIHex)
+        self.index_desc = index_desc          # xref stream with several /Index subsections: written in descending order
         self.drop_info = drop_info            # this revision's trailer carries no /Info although an older one does
         self.hybrid_free = hybrid_free        # hybrid: the classic table lists the objects kept in object streams as FREE entries
                                               # (ISO 32000-1 7.5.8.4: hidden from readers that do not know XRefStm)
@@ -271,6 +272,10 @@ def build(revisions, header=b"%PDF-1.7\n%\xe2\xe3\xcf\xd3\n", transform_for=None
             keys = sorted(ent)
             if rev.split_index:
                 runs = _runs(keys)
+                if rev.index_desc and len(runs) > 1:
+                    # /Index subsections need not ascend: entries follow the order of the pairs
+                    runs = runs[::-1]
+                    keys = [k for (a, n) in runs for k in range(a, a + n)]
             else:
                 lo, hi = keys[0], keys[-1]
                 runs = [[lo, hi - lo + 1]]
